@@ -16,6 +16,12 @@
 // actualCall("f").returnValue() / getData("slot")), then what each of the 13 accessors of the family hands back for A (one fixture
 // run per accessor; ":fail" as above).  Strings and buffers live on the heap, so the stale bytes under a later store are real
 // 64-bit addresses with a non-zero upper half.
+// ":em <iface> <arena> <ref> <len> <ref> <len>" / ":es <iface> <arena> <ref> <ref>" / ":ev <iface> <value> <value>": by-content values AT THE
+// EDGES OF THEIR REPRESENTATION.  <ref> is "~" (a NULL pointer) or an offset into ONE exactly-sized heap block (":es": followed by one NUL),
+// so a buffer may be (NULL, 0), (non-null, 0) -- also at the one-past-the-end address --, the same object on both sides, ...; ":ev" takes any
+// two values, every payload in an allocation of its own.  <iface>: ":eq" the two MockNamedValue objects compared with equals both ways;
+// ":cpp" mock().expectOneCall("f").withParameter("p", first) / mock().actualCall("f").withParameter("p", second) in one fixture run, then the
+// sides swapped in another; ":c" the same through mock_c().  Printed: two flags -- equal / the call was fulfilled (the test did not fail).
 #include "CppUTest/TestHarness.h"
 #include "CppUTest/TestTestingFixture.h"
 #include "CppUTestExt/MockNamedValue.h"
@@ -475,6 +481,151 @@ static bool runReuse(Toks& t, Out& o)
     return true;
 }
 
+// ---------------------------------------------------------------------------------------------------------------------
+// by-content values at the edges of their representation
+static void expectCpp(MockExpectedCall& e, const Stored& s)
+{
+    if (s.tag == ":b") e.withParameter("p", s.b);
+    else if (s.tag == ":i") switch (s.ity) {
+        case 0: e.withParameter("p", (int)s.z); break;
+        case 1: e.withParameter("p", (unsigned int)s.z); break;
+        case 2: e.withParameter("p", (long int)s.z); break;
+        case 3: e.withParameter("p", (unsigned long int)s.z); break;
+        case 4: e.withParameter("p", (long long)s.z); break;
+        default: e.withParameter("p", (unsigned long long)s.z); break;
+    }
+    else if (s.tag == ":d") e.withParameter("p", s.d, s.tol);
+    else if (s.tag == ":s") e.withParameter("p", s.str);
+    else if (s.tag == ":p") e.withParameter("p", (void*)s.addr);
+    else if (s.tag == ":cp") e.withParameter("p", (const void*)s.addr);
+    else if (s.tag == ":f") e.withParameter("p", (fptr_t)s.addr);
+    else e.withMemoryBufferParameter("p", s.mem, s.memLen);
+}
+static void actualCpp(MockActualCall& a, const Stored& s)
+{
+    if (s.tag == ":b") a.withParameter("p", s.b);
+    else if (s.tag == ":i") switch (s.ity) {
+        case 0: a.withParameter("p", (int)s.z); break;
+        case 1: a.withParameter("p", (unsigned int)s.z); break;
+        case 2: a.withParameter("p", (long int)s.z); break;
+        case 3: a.withParameter("p", (unsigned long int)s.z); break;
+        case 4: a.withParameter("p", (long long)s.z); break;
+        default: a.withParameter("p", (unsigned long long)s.z); break;
+    }
+    else if (s.tag == ":d") a.withParameter("p", s.d);
+    else if (s.tag == ":s") a.withParameter("p", s.str);
+    else if (s.tag == ":p") a.withParameter("p", (void*)s.addr);
+    else if (s.tag == ":cp") a.withParameter("p", (const void*)s.addr);
+    else if (s.tag == ":f") a.withParameter("p", (fptr_t)s.addr);
+    else a.withMemoryBufferParameter("p", s.mem, s.memLen);
+}
+static void expectC(MockExpectedCall_c* e, const Stored& s)
+{
+    if (s.tag == ":b") e->withBoolParameters("p", s.b ? 1 : 0);
+    else if (s.tag == ":i") switch (s.ity) {
+        case 0: e->withIntParameters("p", (int)s.z); break;
+        case 1: e->withUnsignedIntParameters("p", (unsigned int)s.z); break;
+        case 2: e->withLongIntParameters("p", (long int)s.z); break;
+        case 3: e->withUnsignedLongIntParameters("p", (unsigned long int)s.z); break;
+        case 4: e->withLongLongIntParameters("p", (long long)s.z); break;
+        default: e->withUnsignedLongLongIntParameters("p", (unsigned long long)s.z); break;
+    }
+    else if (s.tag == ":d") e->withDoubleParametersAndTolerance("p", s.d, s.tol);
+    else if (s.tag == ":s") e->withStringParameters("p", s.str);
+    else if (s.tag == ":p") e->withPointerParameters("p", (void*)s.addr);
+    else if (s.tag == ":cp") e->withConstPointerParameters("p", (const void*)s.addr);
+    else if (s.tag == ":f") e->withFunctionPointerParameters("p", (fptr_t)s.addr);
+    else e->withMemoryBufferParameter("p", s.mem, s.memLen);
+}
+static void actualC(MockActualCall_c* a, const Stored& s)
+{
+    if (s.tag == ":b") a->withBoolParameters("p", s.b ? 1 : 0);
+    else if (s.tag == ":i") switch (s.ity) {
+        case 0: a->withIntParameters("p", (int)s.z); break;
+        case 1: a->withUnsignedIntParameters("p", (unsigned int)s.z); break;
+        case 2: a->withLongIntParameters("p", (long int)s.z); break;
+        case 3: a->withUnsignedLongIntParameters("p", (unsigned long int)s.z); break;
+        case 4: a->withLongLongIntParameters("p", (long long)s.z); break;
+        default: a->withUnsignedLongLongIntParameters("p", (unsigned long long)s.z); break;
+    }
+    else if (s.tag == ":d") a->withDoubleParameters("p", s.d);
+    else if (s.tag == ":s") a->withStringParameters("p", s.str);
+    else if (s.tag == ":p") a->withPointerParameters("p", (void*)s.addr);
+    else if (s.tag == ":cp") a->withConstPointerParameters("p", (const void*)s.addr);
+    else if (s.tag == ":f") a->withFunctionPointerParameters("p", (fptr_t)s.addr);
+    else a->withMemoryBufferParameter("p", s.mem, s.memLen);
+}
+static const Stored* gExp; static const Stored* gAct; static bool gEdgeC;
+static void edgeBody()
+{
+    if (gEdgeC) {
+        expectC(mock_c()->expectOneCall("f"), *gExp);
+        actualC(mock_c()->actualCall("f"), *gAct);
+        mock_c()->checkExpectations();
+    } else {
+        expectCpp(mock().expectOneCall("f"), *gExp);
+        actualCpp(mock().actualCall("f"), *gAct);
+        mock().checkExpectations();
+    }
+}
+// expectation `e`, actual `a`: was the call fulfilled?
+static bool fulfilled(const Stored& e, const Stored& a)
+{
+    gExp = &e; gAct = &a;
+    static MiniFixture* fx = 0;                // one registry, one shell, a new TestResult per run
+    if (!fx) fx = new MiniFixture(edgeBody, readTeardown);
+    bool ok = fx->run() == 0;
+    mock().clear();
+    return ok;
+}
+static unsigned char* edgeRef(Toks& t, unsigned char* block, size_t blockLen)
+{
+    if (t.peek() == "~") { t.next(); return 0; }
+    size_t o = t.u();
+    if (o > blockLen) { fprintf(stderr, "pointer outside the arena\n"); exit(3); }
+    return block + o;
+}
+static bool runEdge(Toks& t, Out& o)
+{
+    if (t.end() || (t.t[t.i] != ":em" && t.t[t.i] != ":es" && t.t[t.i] != ":ev")) return false;
+    std::string kind = t.next(), ifc = t.next();
+    if (ifc != ":eq" && ifc != ":cpp" && ifc != ":c") { fprintf(stderr, "bad interface %s\n", ifc.c_str()); exit(3); }
+    Stored a, b; unsigned char* block = 0;
+    if (kind == ":ev") { keep.reserve(4); parseStored(t, a); parseStored(t, b); if (!a.set || !b.set) exit(3); }
+    else {
+        std::string ar; t.bytes(ar);
+        size_t n = ar.size() + (kind == ":es" ? 1 : 0);
+        block = (unsigned char*)malloc(n);                 // exactly sized: a read past it is seen; malloc(0) is a non-null address with no byte behind it
+        if (ar.size()) memcpy(block, ar.data(), ar.size());
+        if (kind == ":es") block[ar.size()] = 0;
+        a.set = b.set = true;
+        if (kind == ":em") {
+            a.tag = b.tag = ":m";
+            a.mem = edgeRef(t, block, ar.size()); a.memLen = t.u();
+            b.mem = edgeRef(t, block, ar.size()); b.memLen = t.u();
+            if ((!a.mem && a.memLen) || (!b.mem && b.memLen) || (a.mem && (size_t)(a.mem - block) + a.memLen > ar.size()) || (b.mem && (size_t)(b.mem - block) + b.memLen > ar.size()))
+                { fprintf(stderr, "window outside the arena\n"); exit(3); }
+        } else {
+            a.tag = b.tag = ":s";
+            a.str = (const char*)edgeRef(t, block, ar.size()); a.isNull = a.str == 0;
+            b.str = (const char*)edgeRef(t, block, ar.size()); b.isNull = b.str == 0;
+        }
+    }
+    bool ab, ba;
+    if (ifc == ":eq") {
+        MockNamedValue va("p"), vb("p");
+        storeNamed(va, a); storeNamed(vb, b);
+        ab = va.equals(vb); ba = vb.equals(va);
+    } else {
+        gEdgeC = ifc == ":c";
+        ab = fulfilled(a, b); ba = fulfilled(b, a);
+    }
+    o << (ab ? "1" : "0") << (ba ? "1" : "0");
+    o.flush();
+    free(block);
+    return true;
+}
+
 int main()
 {
     Toks t; Out o;
@@ -482,6 +633,7 @@ int main()
         keep.clear(); keep.reserve(4);
         if (runRead(t, o)) continue;
         if (runReuse(t, o)) continue;
+        if (runEdge(t, o)) continue;
         MockNamedValue a("a"), b("b");
         if (!buildAliased(t, a, b)) { build(t, a); build(t, b); }
         o << (a.equals(b) ? "1" : "0") << (b.equals(a) ? "1" : "0");
